@@ -70,6 +70,18 @@ class Operations(object):
     def items(self):
         return self.objects.items()
 
+    def copy(self):
+        """
+        Return a copy of this collection whose operations can be changed
+        without changing the operations of this one.
+        """
+        operations = Operations()
+        for key, operation in self.objects.items():
+            duplicate = Operation(operation.target, operation.type)
+            duplicate.processed = operation.processed
+            operations[key] = duplicate
+        return operations
+
     def add(self, operation):
         self[self.format_key(operation.target)] = operation
 
